@@ -255,106 +255,7 @@ func drawMassGraph(rt *rapid.T) Case {
 
 // drawGraph draws a dependency graph and an arrival order.
 func drawGraph(rt *rapid.T) Case {
-	nis := hgen.NIs
-	var ops []gen.Op
-	type grp struct {
-		ni string
-		id uint64
-	}
-	var groups []grp
-	nNI := rapid.IntRange(1, 3).Draw(rt, "nNI")
-	for n := 0; n < nNI; n++ {
-		ni := nis[n]
-		nnh := rapid.IntRange(1, 3).Draw(rt, "nnh")
-		for i := 1; i <= nnh; i++ {
-			if rapid.IntRange(0, 9).Draw(rt, "nh-arrives") == 0 {
-				continue // this dependency never arrives
-			}
-			ops = append(ops, gen.Op{NI: ni, Kind: gen.NH, Act: gen.ADD, Key: fmt.Sprint(i), IP: "192.0.2.1"})
-		}
-		ng := rapid.IntRange(1, 2).Draw(rt, "ng")
-		for g := 1; g <= ng; g++ {
-			o := gen.Op{NI: ni, Kind: gen.NHG, Act: gen.ADD, Key: fmt.Sprint(g)}
-			for i := 1; i <= nnh; i++ {
-				if rapid.Bool().Draw(rt, "member") {
-					o.Hops = append(o.Hops, gen.Hop{Index: uint64(i)})
-				}
-			}
-			if len(o.Hops) == 0 {
-				o.Hops = []gen.Hop{{Index: 1}}
-			}
-			if rapid.IntRange(0, 4).Draw(rt, "backup?") == 0 {
-				o.Backup = u(uint64(rapid.IntRange(1, 3).Draw(rt, "backup")))
-			}
-			groups = append(groups, grp{ni, uint64(g)})
-			if rapid.IntRange(0, 9).Draw(rt, "nhg-arrives") != 0 {
-				ops = append(ops, o)
-			}
-		}
-	}
-	ntop := rapid.IntRange(1, 4).Draw(rt, "ntop")
-	for i := 0; i < ntop; i++ {
-		g := groups[rapid.IntRange(0, len(groups)-1).Draw(rt, "grp")]
-		ni := nis[rapid.IntRange(0, nNI-1).Draw(rt, "topni")]
-		kind := []string{gen.V4, gen.V6, gen.MPLS}[rapid.IntRange(0, 2).Draw(rt, "topkind")]
-		key := map[string][]string{gen.V4: hgen.V4s, gen.V6: hgen.V6s, gen.MPLS: {"100", "101", "1048575"}}[kind]
-		o := gen.Op{NI: ni, Kind: kind, Act: gen.ADD, Key: key[rapid.IntRange(0, len(key)-1).Draw(rt, "key")], Group: g.id}
-		if g.ni != ni || rapid.IntRange(0, 3).Draw(rt, "explicit-ni") == 0 {
-			o.GroupNI = g.ni
-		}
-		ops = append(ops, o)
-	}
-	// dependencies deleted and re-added
-	nx := rapid.IntRange(0, 4).Draw(rt, "nextra")
-	for i := 0; i < nx && len(ops) > 0; i++ {
-		b := ops[rapid.IntRange(0, len(ops)-1).Draw(rt, "victim")]
-		if b.Kind == gen.NH || b.Kind == gen.NHG {
-			ops = append(ops, gen.Op{NI: b.NI, Kind: b.Kind, Act: gen.DELETE, Key: b.Key, NoPayload: true})
-			if rapid.Bool().Draw(rt, "readd") {
-				ops = append(ops, b)
-			}
-		} else if rapid.IntRange(0, 2).Draw(rt, "top-delete?") == 0 {
-			ops = append(ops, gen.Op{NI: b.NI, Kind: b.Kind, Act: gen.DELETE, Key: b.Key, NoPayload: true})
-		} else {
-			r := b
-			r.Act = gen.REPLACE
-			r.Group = uint64(rapid.IntRange(1, 3).Draw(rt, "retarget"))
-			ops = append(ops, r)
-		}
-	}
-	// a held REPLACE that is doomed (its key is deleted while it waits) plus a
-	// later install that makes the server look at the held set again
-	if rapid.IntRange(0, 3).Draw(rt, "doomed?") == 0 {
-		for _, b := range ops {
-			if b.Kind == gen.V4 || b.Kind == gen.V6 || b.Kind == gen.MPLS {
-				r := b
-				r.Act, r.Group, r.GroupNI = gen.REPLACE, 4, ""
-				ops = append(ops, r,
-					gen.Op{NI: b.NI, Kind: b.Kind, Act: gen.DELETE, Key: b.Key, NoPayload: true},
-					gen.Op{NI: b.NI, Kind: gen.NH, Act: gen.ADD, Key: "4", Intf: "eth0"},
-					gen.Op{NI: b.NI, Kind: gen.NH, Act: gen.ADD, Key: "3", Intf: "eth0"})
-				break
-			}
-		}
-	}
-	var perm []gen.Op
-	if rapid.Bool().Draw(rt, "uniform-order") {
-		perm = rapid.Permutation(ops).Draw(rt, "order")
-	} else {
-		// mostly causal order (dependencies first) disturbed by a few swaps
-		perm = append(perm, ops...)
-		for k := rapid.IntRange(0, 3).Draw(rt, "nswaps"); k > 0; k-- {
-			i := rapid.IntRange(0, len(perm)-1).Draw(rt, "swap-i")
-			j := rapid.IntRange(0, len(perm)-1).Draw(rt, "swap-j")
-			perm[i], perm[j] = perm[j], perm[i]
-		}
-	}
-	c := Case{Level: "L1", H: hgen.History{FwdRefs: rapid.IntRange(0, 3).Draw(rt, "fwd") != 0}}
-	for i := range perm {
-		o := perm[i]
-		o.ID = uint64(i + 1)
-		c.H.Steps = append(c.H.Steps, hgen.Step{Op: &o})
-	}
+	c := Case{Level: "L1", H: hgen.DrawGraph(rt)}
 	if rapid.IntRange(0, 4).Draw(rt, "l2?") == 0 {
 		c.Level = "L2"
 		c.Batch = []int{rapid.IntRange(1, 5).Draw(rt, "batch")}
